@@ -100,6 +100,7 @@ func declared(d []byte) (w, h, comps, tiles uint64, ok bool) {
 // ---------------------------------------------------------------- corpus
 
 type corpusItem struct {
+	geo    int
 	name   string
 	family string // jpeg | j2k | rle
 	info   spec.Info
@@ -137,17 +138,18 @@ func headerEnd(family string, d []byte) int {
 
 func buildCorpus(env *Env, cfg *spec.DiskCfg) []corpusItem {
 	var out []corpusItem
+	curGeo := 0
 	r := spec.NewRng(0xC0DEC) // corpus content is fixed, not seed dependent: enumeration must be reproducible by index
 	add := func(name, family, ts string, in spec.Info, data []byte, ht bool) {
 		if len(data) == 0 {
 			return
 		}
-		out = append(out, corpusItem{name: name, family: family, info: in, data: data, hdrEnd: headerEnd(family, data), ts: ts, ht: ht})
+		out = append(out, corpusItem{geo: curGeo, name: name, family: family, info: in, data: data, hdrEnd: headerEnd(family, data), ts: ts, ht: ht})
 	}
 	type geo struct{ w, h, spp int }
 	geos := []geo{{9, 7, 1}}
 	if cfg.Corpus == "full" {
-		geos = []geo{{9, 7, 1}, {1, 1, 1}, {1, 13, 1}, {13, 1, 1}, {15, 17, 1}, {16, 16, 1}, {9, 7, 3}, {17, 8, 3}}
+		geos = []geo{{9, 7, 1}, {9, 7, 3}, {1, 1, 1}, {1, 13, 1}, {13, 1, 1}, {15, 17, 1}, {16, 16, 1}, {17, 8, 3}}
 	} else {
 		geos = append(geos, geo{8, 9, 3})
 	}
@@ -170,6 +172,7 @@ func buildCorpus(env *Env, cfg *spec.DiskCfg) []corpusItem {
 		return outb
 	}
 	for gi, g := range geos {
+		curGeo = gi
 		tag := fmt.Sprintf("%dx%dx%d", g.w, g.h, g.spp)
 		// JPEG family through the package-level encoders
 		in8, _ := mk(g, 8, 8)
@@ -481,6 +484,8 @@ type plan struct {
 	nEntriesHT  int
 	maxHT       int // HTJ2K corpus members enumerated
 	truncStride int
+	// richGeos: corpus members of the first richGeos geometries get pokeVals, the rest fewVals
+	richGeos int
 }
 
 func allVals() []int {
@@ -518,11 +523,11 @@ func planFor(cfg *spec.DiskCfg) plan {
 	case cfg.Prop == "C09" && !full:
 		return plan{railSamples: domainMaxSamples, pokeVals: midVals(), pokeValsHT: fewVals[:6], nEntries: 1, nEntriesHT: 1, maxHT: 1, truncStride: 1}
 	case cfg.Prop == "C09":
-		return plan{railSamples: domainMaxSamples, pokeVals: allVals(), pokeValsHT: fewVals, nEntries: 2, nEntriesHT: 1, maxHT: 4, truncStride: 1}
+		return plan{railSamples: domainMaxSamples, pokeVals: allVals(), pokeValsHT: fewVals, nEntries: 1, nEntriesHT: 1, maxHT: 4, truncStride: 1, richGeos: 1}
 	case !full:
 		return plan{railSamples: 1 << 16, pokeVals: midVals(), pokeValsHT: fewVals[:8], nEntries: 2, nEntriesHT: 2, maxHT: 1, truncStride: 1}
 	}
-	return plan{railSamples: domainMaxSamples, pokeVals: allVals(), pokeValsHT: fewVals, nEntries: 8, nEntriesHT: 3, maxHT: 64, truncStride: 1}
+	return plan{railSamples: domainMaxSamples, pokeVals: allVals(), pokeValsHT: fewVals, nEntries: 2, nEntriesHT: 2, maxHT: 64, truncStride: 1, richGeos: 2}
 }
 
 // one runs a single case. build() produces the bytes lazily.
@@ -713,6 +718,9 @@ func diskMain(inPath, outPath string) {
 		}
 		ents := entriesFor(it, false)
 		nE, vals := s.pl.nEntries, s.pl.pokeVals
+		if s.pl.richGeos > 0 && it.geo >= s.pl.richGeos {
+			vals = fewVals
+		}
 		if it.ht {
 			htSeen++
 			if htSeen > s.pl.maxHT {
